@@ -71,7 +71,7 @@ class HarnessFailure(Exception):
     pass
 
 
-def _run_chunk(exe, chunk, workdir, env, stack_mb=None):
+def _run_chunk(exe, chunk, workdir, env, stack_mb=None, wrapper=()):
     data = b"".join(c.serialize() for c in chunk)
     pre = None
     if stack_mb:
@@ -80,7 +80,8 @@ def _run_chunk(exe, chunk, workdir, env, stack_mb=None):
         def pre():
             lim = stack_mb * 1024 * 1024
             resource.setrlimit(resource.RLIMIT_STACK, (lim, lim))
-    p = subprocess.run([exe, workdir], input=data, stdout=subprocess.PIPE, stderr=subprocess.PIPE, env=env,
+    wrapper = [w.replace("{workdir}", workdir) for w in wrapper]
+    p = subprocess.run(list(wrapper) + [exe, workdir], input=data, stdout=subprocess.PIPE, stderr=subprocess.PIPE, env=env,
                        preexec_fn=pre)
     res = {}
     for line in p.stdout.split(b"\n"):
@@ -91,6 +92,13 @@ def _run_chunk(exe, chunk, workdir, env, stack_mb=None):
         except ValueError as e:
             raise HarnessFailure("driver produced unparsable output: %r ... (%s)" % (line[:300], e))
         res[r["id"]] = r
+        if wrapper and "pid" in r:
+            # tool reports (valgrind --log-file={workdir}/vg.%p) of the forked child belong to the case
+            try:
+                with open(os.path.join(workdir, "vg.%d" % r["pid"]), "rb") as f:
+                    r["stderr"] = r.get("stderr", "") + f.read(200000).decode("utf-8", "replace")
+            except OSError:
+                pass
     if p.returncode != 0 or len(res) != len(chunk):
         missing = [c.id for c in chunk if c.id not in res]
         raise HarnessFailure("driver exited %s, %d/%d results, first missing %s; stderr: %s" % (
@@ -98,10 +106,12 @@ def _run_chunk(exe, chunk, workdir, env, stack_mb=None):
     return res
 
 
-def run_cases(cases, variant="asan", jobs=16, chunk_size=None, stack_mb=None):
+def run_cases(cases, variant="asan", jobs=16, chunk_size=None, stack_mb=None, wrapper=()):
     """Returns {case id: result dict}.  Raises HarnessFailure if a driver process dies outside a case."""
     if not cases:
         return {}
+    if os.environ.get("VERIF_COV") and variant in ("asan", "asan-assert"):
+        variant = "cov"         # tools/coverage.py: same workloads, gcov-instrumented library, verdicts ignored
     exe = driver_path(variant)
     os.makedirs(WORK, exist_ok=True)
     workdir = tempfile.mkdtemp(prefix="run.", dir=WORK)
@@ -113,7 +123,7 @@ def run_cases(cases, variant="asan", jobs=16, chunk_size=None, stack_mb=None):
     results = {}
     try:
         with ThreadPoolExecutor(max_workers=jobs) as ex:
-            for r in ex.map(lambda ch: _run_chunk(exe, ch, workdir, env, stack_mb), chunks):
+            for r in ex.map(lambda ch: _run_chunk(exe, ch, workdir, env, stack_mb, wrapper), chunks):
                 results.update(r)
     finally:
         subprocess.run(["rm", "-rf", workdir])
